@@ -332,6 +332,11 @@ func runExec(t *testing.T, sc *Scenario, prefix []int, sigs []string, keepSigs b
 				m.S = s
 				m.W = newWire(s)
 				s.SetEnv(m.W)
+				m.W.onSend = func(ev *wireEvent) {
+					if a := m.As[ev.From]; a != nil {
+						ev.snap = &sendSnap{cwnd: a.CWND(), rwnd: a.RWND()}
+					}
+				}
 				start = time.Now()
 				if sc.Setup != nil {
 					sc.Setup(m)
